@@ -73,7 +73,8 @@ def run_one(seed, preset=None, tier="quick", want_case=False):
     ft = tape.sub("fault")
     case = gen_case(tape, doc_knobs={"max_ops": 2})
     cfg = pick_engine_cfg(cfgt)
-    base = make_plan(case, tape)
+    plan_knobs = {"long_list_pct": 3}
+    base = make_plan(case, tape, knobs=plan_knobs)
     r = base_result(tape)
     r["case_digest"] = case.digest()
     metrics = {"requests": 1, "fault_executions": 0, "single_faults": 0, "multi_faults": 0, "sites": 0}
@@ -86,11 +87,16 @@ def run_one(seed, preset=None, tier="quick", want_case=False):
     sites = enumerate_fault_sites(base)
     metrics["sites"] = len(sites)
     singles = list(sites)
+    high = [x for x in sites if any(isinstance(i, int) and i >= 256 for i in x[0])]
     if tier == "quick":
         singles = ft.shuffle(singles)[:12] if len(singles) > 12 else singles
     else:
         singles = ft.shuffle(singles)[:150] if len(singles) > 150 else singles
     fault_sets = [{p: k} for p, k in singles]
+    if high:
+        for _ in range(3):
+            p, k = high[ft.draw(len(high))]
+            fault_sets.append({p: k})
     n_multi = 3 if tier == "quick" else 10
     if len(sites) >= 2:
         for i in range(n_multi):
@@ -118,7 +124,7 @@ def run_one(seed, preset=None, tier="quick", want_case=False):
         last_plan = base
         for i, fs in enumerate(fault_sets):
             t2 = Tape(seed, preset)
-            plan = make_plan(case, t2, fs, base=base)
+            plan = make_plan(case, t2, fs, base=base, knobs=plan_knobs)
             for k, v in t2.used.items():
                 if k.startswith("data") and len(v) > len(tape.used.get(k, ())):
                     tape.used[k] = v
@@ -132,6 +138,9 @@ def run_one(seed, preset=None, tier="quick", want_case=False):
                 faults_fired[k] = faults_fired.get(k, 0) + n
             for k, n in layout_probe(plan, None).items():
                 probes[k] = probes.get(k, 0) + n
+            for k in ("list_longer_than_256", "scalar_serialises_to_null", "falsy_parent_object"):
+                if plan.probes.get(k):
+                    probes[k] = probes.get(k, 0) + 1
             if plan.errors:
                 distinct.add(repr(sorted((repr(p), k) for p, k in fs.items())))
             vs = []
